@@ -1,6 +1,7 @@
 import PnVerif.Lemmas.ToolsSound
 import PnVerif.Lemmas.ToolsRepaired
 import PnVerif.Lemmas.ToolsDiff
+import PnVerif.Lemmas.ToolsPartition
 import PnVerif.Lemmas.Accept
 import PnVerif.Props.C04
 /-
@@ -408,10 +409,44 @@ example : NoByte ncmpidiffCfg intA ∧ LenAgree ncmpidiffCfg intA intB ∧ intA.
     decide
   exact ⟨n1, n2, rfl, by decide, by decide⟩
 
+/-! ## ncmpidiff on several processes -/
+
+/-- `ncmpidiff_partition_covers`: for EVERY length L of the partitioned dimension and EVERY number of processes
+    n ≥ 1, the (start, count) blocks ncmpidiff gives its ranks are pairwise disjoint and their union is [0, L):
+    each index belongs to the block of exactly one rank. -/
+theorem ncmpidiff_partition_covers (L n : Nat) (hn : 1 ≤ n) (i : Nat) (hi : i < L) :
+    ∃ r, r < n ∧ ((rankBlock L n r).1 ≤ i ∧ i < (rankBlock L n r).1 + (rankBlock L n r).2) ∧
+      ∀ r', r' < n → ((rankBlock L n r').1 ≤ i ∧ i < (rankBlock L n r').1 + (rankBlock L n r').2) → r' = r :=
+  partition_covers L n hn i hi
+
+/-- the blocks stay inside the dimension -/
+theorem ncmpidiff_block_inside (L n r : Nat) (hn : 1 ≤ n) (hr : r < n) : (rankBlock L n r).1 + (rankBlock L n r).2 ≤ L :=
+  block_inside L n r hn hr
+
+/-- for every shape (fixed-size or record variable: the record dimension enters with its current length), every
+    element is inside the start[]/shape[] box of some rank -/
+theorem ncmpidiff_every_element_compared (nprocs : Nat) (hn : 1 ≤ nprocs) (shape idx : List Nat)
+    (h : inShape idx shape = true) : ∃ r, r < nprocs ∧ inBox idx (rankBox nprocs r shape) = true :=
+  every_element_compared nprocs hn shape idx h
+
+/-- `ncmpidiff_multirank_verdict`: "some rank finds a differing element" ⇔ "the variable has a differing element",
+    for every number of processes: the verdict of an n-rank run is the verdict of the 1-rank run, so `diff_complete`,
+    `diff_iff_logical_eq_partial` and the `diff_detects_*` theorems (stated for the comparison of whole variables)
+    hold for ncmpidiff on any number of processes. -/
+theorem ncmpidiff_multirank_verdict (nprocs : Nat) (hn : 1 ≤ nprocs) (shape : List Nat) (d : List Nat → Bool) :
+    (∃ r, r < nprocs ∧ ∃ idx, inBox idx (rankBox nprocs r shape) = true ∧ d idx = true) ↔
+    (∃ idx, inShape idx shape = true ∧ d idx = true) :=
+  multirank_verdict nprocs hn shape d
+
+/-- on one process the box is the whole variable -/
+example : rankBox 1 0 [5, 3] = [(0, 5), (0, 3)] ∧ rankBox 2 0 [5, 3] = [(0, 3), (0, 3)] ∧ rankBox 2 1 [5, 3] = [(3, 2), (0, 3)] ∧
+    rankBox 4 2 [3, 9] = [(0, 3), (5, 2)] := by decide
+
 def obligations : List String := [
   "validate_accepts_encoded", "validate_accepts_layoutValid", "validate_sound_counterexample", "validate_sound_partial",
   "validate_canonical", "validate_magic", "validate_sound_repaired", "repaired_array_tag",
   "cdfdiff_repaired_iff_logical_eq", "ncmpidiff_repaired_iff_logical_eq",
+  "ncmpidiff_partition_covers", "ncmpidiff_block_inside", "ncmpidiff_every_element_compared", "ncmpidiff_multirank_verdict",
   "diff_refl", "diff_complete", "diff_iff_logical_eq_counterexample_cdfdiff", "diff_iff_logical_eq_counterexample_ncmpidiff",
   "diff_iff_logical_eq_partial", "cdfdiff_iff_logical_eq", "diff_symm_counterexample_cdfdiff", "diff_symm_partial",
   "diff_layout_invariant", "diff_layout_invariant_shift", "diff_detects_value_edit", "diff_detects_attribute_edit",
